@@ -80,7 +80,8 @@ def expand(mod, obs, tier, known, only=None):
             pre = excl + ([part] if part else [])
             jobs.append(dict(base, role="main", pre=pre, part=pi))
         if not base["native"]:
-            jobs.append(dict(base, role="witness", witness=True, pre=excl, timeout=min(tmo, 120), part=0))
+            jobs.append(dict(base, role="witness", witness=True, pre=excl + ([parts[0]] if parts[0] else []),
+                             timeout=min(tmo, 120), part=0))
         for f in open_findings:
             jobs.append(dict(base, role="finding", finding=f["id"], pre=[f["pred"]], part=0))
     return jobs
